@@ -68,7 +68,9 @@ def model_strategy():
                              'StudentTUnivariate', 'LogLaplace']).map(lambda c: {'cls': c, 'opts': {}})
     kde = st.fixed_dictionaries({'cls': st.just('GaussianKDE'), 'opts': st.fixed_dictionaries({
         'bw_method': st.one_of(st.sampled_from([None, 'scott', 'silverman', 1.0]), st.floats(0.05, 1.0)),
-        'sample_size': st.one_of(st.none(), st.none(), st.integers(20, 200))})})
+        'sample_size': st.one_of(st.none(), st.none(), st.integers(20, 200)),
+        # clearly non-uniform kernel weights (one per training value; ignored together with sample_size)
+        'weights_seed': st.one_of(st.none(), st.none(), st.integers(0, 10 ** 6))})})
     trunc = st.fixed_dictionaries({'cls': st.just('TruncatedGaussian'), 'opts': st.one_of(
         st.just({}), st.fixed_dictionaries({'lo_frac': st.floats(0.0, 2.0), 'hi_frac': st.floats(0.0, 2.0)}),
         st.fixed_dictionaries({'lo_frac': st.floats(0.0, 2.0), 'hi_frac': st.floats(0.0, 2.0), 'zero_bound': st.just(True)}),
@@ -105,6 +107,10 @@ def build_model(spec, data, random_state=None):
                 opts.pop('maximum')        # only one bound given by the user
             elif spec['opts'].get('one_sided') == 'max':
                 opts.pop('minimum')
+    if cls == 'GaussianKDE' and 'weights_seed' in opts:
+        ws = opts.pop('weights_seed')
+        if ws is not None and opts.get('sample_size') is None:
+            opts['weights'] = np.random.RandomState(ws).uniform(0.05, 1.0, size=len(data)) ** 3
     if cls == 'Univariate':
         if 'candidate_instances' in opts:
             opts['candidates'] = [M.uni_class(c['cls'])(**c['opts']) for c in opts.pop('candidate_instances')]
